@@ -109,7 +109,18 @@ func (p *Parser) validateUpdateRequest(update *model.UpdateRequest) error {
 		return errors.New("missing signed data")
 	}
 
-	return p.validateMultihash(update.RevealValue, "reveal value")
+	if err := p.validateMultihash(update.RevealValue, "reveal value"); err != nil {
+		return err
+	}
+
+	// the request is parsed as what it is filed as (in a batch file, in the operation store): one that says itself to
+	// be of another type would be looked at in two ways - its next commitment is extracted according to its own type
+	// member when the commitment chain is followed - and is refused
+	if update.Operation != operation.TypeUpdate {
+		return fmt.Errorf("operation type [%s] is not %s", update.Operation, operation.TypeUpdate)
+	}
+
+	return nil
 }
 
 func (p *Parser) validateSignedDataForUpdate(signedData *model.UpdateSignedDataModel) error {
